@@ -617,7 +617,13 @@ func sameLoad(a, b ssa.Value) bool {
 	}
 	ua, ok1 := a.(*ssa.UnOp)
 	ub, ok2 := b.(*ssa.UnOp)
-	return ok1 && ok2 && ua.Op == token.MUL && ub.Op == token.MUL && ua.X == ub.X
+	if ok1 && ok2 && ua.Op == token.MUL && ub.Op == token.MUL && ua.X == ub.X {
+		return true
+	}
+	// structurally equal pure access paths (e.g. two loads of x.f computed separately)
+	c := &boundsCtx{keys: map[ssa.Value]string{}, symVal: map[string]ssa.Value{}}
+	ka, kb := c.key(a), c.key(b)
+	return ka == kb && !strings.HasPrefix(ka, "v:") && strings.HasPrefix(ka, "*")
 }
 
 func checkValidate(p *Prog, r *Report) {
